@@ -198,6 +198,7 @@ fn references(cs: &Case) -> Refs {
 }
 
 fn rolling_matrix(ctx: &mut Ctx, rng: &mut Rng, cs: &Case) {
+    fdiff_cells(ctx, rng, cs);
     let refs = references(cs);
     let xf = enc_f64(cs.x);
     let yf = enc_f64(cs.y);
@@ -290,6 +291,47 @@ fn rolling_matrix(ctx: &mut Ctx, rng: &mut Rng, cs: &Case) {
         cell_valid1!(ctx, cs, refs, &ax, Array1<f64>, f64, Float64Chunked, Option<f64>, "array1->polars", &ret);
     }
 }
+
+/// fractional differencing goes through the window-slice driver (rolling_custom / uslice): same
+/// matrix idea, for the backends whose slice output can be iterated
+#[cfg(feature = "fdiff")]
+fn fdiff_cells(ctx: &mut Ctx, rng: &mut Rng, cs: &Case) {
+    if ctx.is_sanitizer_mode() {
+        return; // the C++ binomial cannot be crossed by Miri
+    }
+    let xf = enc_f64(cs.x);
+    let d = *rng.pick(&[0.3, 0.5, 1.0, 1.5]);
+    let fns: Vec<Rf> = if has_nulls(cs.x) { vec![Rf::VFdiff(d)] } else { vec![Rf::VFdiff(d), Rf::Fdiff(d)] };
+    for rf in fns {
+        let reference: Res = catch(|| obs_of::<Vec<f64>, f64>(call_fdiff::<Vec<f64>, f64, Vec<f64>, f64>(rf, &xf, cs.w, cs.mp, Path::Ret)));
+        macro_rules! cell {
+            ($v:expr, $V:ty, $O:ty, $label:expr) => {{
+                for path in [Path::Ret, Path::Buf] {
+                    let got = catch(|| obs_of::<$O, f64>(call_fdiff::<$V, f64, $O, f64>(rf, $v, cs.w, cs.mp, path)));
+                    cmp_cell(ctx, cs, rf, $label, path, got, &reference);
+                }
+            }};
+        }
+        cell!(&xf, Vec<f64>, Array1<f64>, "vec->array1");
+        cell!(&xf, Vec<f64>, VecDeque<f64>, "vec->deque");
+        let ax = nd_owned(&xf);
+        cell!(&ax, Array1<f64>, Vec<f64>, "array1->vec");
+        cell!(&ax, Array1<f64>, Array1<f64>, "array1->array1");
+        let av = arc_vec(&xf);
+        cell!(&av, Arc<Vec<f64>>, Vec<f64>, "arc<vec>->vec");
+        let an = arc_nd(&xf);
+        cell!(&an, Arc<Array1<f64>>, Vec<f64>, "arc<array1>->vec");
+        // strided / reversed views: the slice bound needs a 'static view, so the base is leaked (a few bytes)
+        let step = *rng.pick(&[2isize, 3, -1, -2]);
+        let base: &'static Array1<f64> = Box::leak(Box::new(nd_base(&xf, step, 8080.5)));
+        let vw = nd_view(base, step);
+        cell!(&vw, ArrayView1<'static, f64>, Vec<f64>, "arrayview1(strided)->vec");
+        cell!(&vw, ArrayView1<'static, f64>, SpyOut<f64>, "arrayview1(strided)->spyout");
+        ctx.count("fdiff_cells");
+    }
+}
+#[cfg(not(feature = "fdiff"))]
+fn fdiff_cells(_: &mut Ctx, _: &mut Rng, _: &Case) {}
 
 // ---------------------------------------------------------------------------------------
 // view-based map functions and aggregations on every backend
